@@ -1,3 +1,197 @@
 import Anytree.Spec.Attr
+import Anytree.Lemmas.Attr
+/-!
+# C20 — a symlink node has its own tree position and forwards the rest to its target
+-/
 namespace Anytree.Props.C20
+open Anytree Attr Spec
+variable {V : Type}
+
+/-- an instance-data name that a link forwards: not one of the names listed in `__setattr__`,
+`__getattr__` (all extracted from the source) -/
+def Forwarded (name : String) : Prop := isLocal name = false
+
+/-- **reads forward**: on a link, an attribute that is not in the link's own `__dict__` is read from
+the target (one step) -/
+theorem link_read_step (h : Heap V) (fuel i t : Nat) (name : String) (ht : (h i).target = some t)
+    (hn : Forwarded name) (hown : dictGet (h i).dict name = none) :
+    getattr h (fuel + 1) i name = getattr h fuel t name := by
+  obtain ⟨_, h2, h3⟩ := isLocal_false hn
+  simp only [getattr, hown, ht]
+  rw [if_neg (by rw [h2]; simp), if_neg (by rw [h3]; simp)]
+
+/-- **writes forward**: an assignment on a link of a forwarded name is the assignment on its target -/
+theorem link_write_step (h : Heap V) (fuel i t : Nat) (name : String) (v : V)
+    (ht : (h i).target = some t) (hn : Forwarded name) :
+    setattr h (fuel + 1) i name v = setattr h fuel t name v :=
+  setattr_succ_fwd h fuel i t name v ht (isLocal_false hn).1
+
+/-- a link's own dictionary holds local names only: kept by every assignment -/
+theorem setattr_preserves_clean (h h' : Heap V) (fuel i : Nat) (name : String) (v : V)
+    (hc : LinkClean h) (hs : setattr h fuel i name v = some h') : LinkClean h' := by
+  induction fuel generalizing i with
+  | zero => simp [setattr_zero] at hs
+  | succ n ih =>
+    cases ht : (h i).target with
+    | none =>
+      rw [setattr_succ_plain h n i name v ht] at hs
+      injection hs with hs; subst hs
+      exact linkClean_upd h hc i name v (fun hne => absurd ht hne)
+    | some t =>
+      cases hl : Generated.symlinkSetattrLocal.contains name with
+      | true =>
+        rw [setattr_succ_local h n i t name v ht hl] at hs
+        injection hs with hs; subst hs
+        exact linkClean_upd h hc i name v (fun _ => hl)
+      | false =>
+        rw [setattr_succ_fwd h n i t name v ht hl] at hs
+        exact ih t hs
+
+/-- assignments never change what an object links to -/
+theorem setattr_target (h h' : Heap V) (fuel i : Nat) (name : String) (v : V)
+    (hs : setattr h fuel i name v = some h') : ∀ j, (h' j).target = (h j).target := by
+  induction fuel generalizing i with
+  | zero => simp [setattr_zero] at hs
+  | succ n ih =>
+    cases ht : (h i).target with
+    | none =>
+      rw [setattr_succ_plain h n i name v ht] at hs
+      injection hs with hs; subst hs
+      exact upd_target h i name v
+    | some t =>
+      cases hl : Generated.symlinkSetattrLocal.contains name with
+      | true =>
+        rw [setattr_succ_local h n i t name v ht hl] at hs
+        injection hs with hs; subst hs
+        exact upd_target h i name v
+      | false =>
+        rw [setattr_succ_fwd h n i t name v ht hl] at hs
+        exact ih t hs
+
+/-- **mirror = specification for reads**: with clean links, reading a forwarded name through any
+chain of links gives exactly what the real target holds (value or AttributeError) -/
+theorem getattr_eq_readS (h : Heap V) (hc : LinkClean h) (fuel i : Nat) (name : String)
+    (hn : Forwarded name) : getattr h fuel i name = readS h fuel i name := by
+  induction fuel generalizing i with
+  | zero => rfl
+  | succ n ih =>
+    cases ht : (h i).target with
+    | none =>
+      simp only [getattr, readS, resolve, ht]
+      cases dictGet (h i).dict name <;> rfl
+    | some t =>
+      have hown : dictGet (h i).dict name = none :=
+        dictGet_none_of_keys _ _ name (hc i (by rw [ht]; simp)) (isLocal_false hn).1
+      rw [link_read_step h n i t name ht hn hown, ih t]
+      simp only [readS, resolve, ht]
+
+/-- an assignment through any chain of links is stored in the real target's dictionary, and nothing
+else changes -/
+theorem setattr_stores_on_target (h h' : Heap V) (fuel i p : Nat) (name : String) (v : V)
+    (hn : Forwarded name) (hr : resolve h fuel i = some p) (hs : setattr h fuel i name v = some h') :
+    (h' p).dict = dictPut (h p).dict name v ∧ ∀ j, j ≠ p → h' j = h j := by
+  induction fuel generalizing i with
+  | zero => simp [setattr_zero] at hs
+  | succ n ih =>
+    cases ht : (h i).target with
+    | none =>
+      rw [setattr_succ_plain h n i name v ht] at hs
+      injection hs with hs; subst hs
+      simp only [resolve, ht] at hr
+      injection hr with hr; subst hr
+      exact ⟨upd_self_dict h i name v, fun j hj => upd_other h i name v j hj⟩
+    | some t =>
+      rw [link_write_step h n i t name v ht hn] at hs
+      simp only [resolve, ht] at hr
+      exact ih t hr hs
+
+/-- **write then read, in both directions**: after `setattr(x, name, v)` every object whose chain of
+links ends in the same real target as `x`'s reads `v` -/
+theorem write_then_read (h h' : Heap V) (hc : LinkClean h) (fuel i j p : Nat) (name : String) (v : V)
+    (hn : Forwarded name) (hri : resolve h fuel i = some p) (hrj : resolve h fuel j = some p)
+    (hs : setattr h fuel i name v = some h') : getattr h' fuel j name = .value v := by
+  have hc' := setattr_preserves_clean h h' fuel i name v hc hs
+  have htg := setattr_target h h' fuel i name v hs
+  have hst := (setattr_stores_on_target h h' fuel i p name v hn hri hs).1
+  rw [getattr_eq_readS h' hc' fuel j name hn]
+  simp only [readS, resolve_congr h h' htg fuel j, hrj, hst, dictGet_dictPut_self]
+
+/-- reading an attribute the target lacks raises AttributeError -/
+theorem missing_attr_error (h : Heap V) (hc : LinkClean h) (fuel i p : Nat) (name : String)
+    (hn : Forwarded name) (hr : resolve h fuel i = some p) (hm : dictGet (h p).dict name = none) :
+    getattr h fuel i name = .attributeError := by
+  rw [getattr_eq_readS h hc fuel i name hn]
+  simp only [readS, hr, hm]
+
+/-- the repaired constructor keeps links clean (keyword attributes are forwarded, not stored on an
+intermediate link). No freshness assumption on `i` is needed: the constructor overwrites object `i`
+with an empty dictionary, which is clean. -/
+theorem ctorLink_clean (h h' : Heap V) (hc : LinkClean h) (fuel i t : Nat) (kw : List (String × V))
+    (hs : ctorLink false h fuel i t kw = some h') : LinkClean h' := by
+  have hfold : ∀ (kw : List (String × V)) (h0 h' : Heap V), LinkClean h0 →
+      kw.foldlM (fun hh e => setattr hh fuel t e.1 e.2) h0 = some h' → LinkClean h' := by
+    intro kw
+    induction kw with
+    | nil =>
+      intro h0 h' hc0 hs
+      simp only [List.foldlM_nil] at hs
+      injection hs with hs; subst hs; exact hc0
+    | cons e kw ih =>
+      intro h0 h' hc0 hs
+      rw [List.foldlM_cons] at hs
+      cases h1 : setattr h0 fuel t e.1 e.2 with
+      | none => rw [h1] at hs; simp at hs
+      | some h1' =>
+        rw [h1] at hs
+        exact ih h1' h' (setattr_preserves_clean h0 h1' fuel t e.1 e.2 hc0 h1) hs
+  have hc0 : LinkClean (fun j => if j = i then (⟨[], some t⟩ : Obj V) else h j) := by
+    intro j hj e he
+    by_cases hji : j = i
+    · simp [hji] at he
+    · simp only [hji, if_false] at hj he
+      exact hc j hj e he
+  unfold ctorLink at hs
+  simp only [Bool.false_eq_true, if_false] at hs
+  exact hfold kw _ h' hc0 hs
+
+/-- finding D7 (before the repair): a keyword attribute given to a link-to-a-link was stored on the
+intermediate link and then shadowed later writes — kernel-checked witness -/
+def hD7 : Heap Nat := fun j => if j = 1 then ⟨[], some 0⟩ else ⟨[], none⟩      -- 0 plain, 1 → 0
+theorem D7_witness :
+    (match ctorLink true hD7 8 2 1 [("foo", 1)] with
+     | some h => (match setattr h 8 1 "foo" 5 with
+        | some h' => getattr h' 8 1 "foo" = .value 1 ∧ getattr h' 8 0 "foo" = .value 5
+        | none => False)
+     | none => False) ∧
+    (match ctorLink false hD7 8 2 1 [("foo", 1)] with
+     | some h => (match setattr h 8 1 "foo" 5 with
+        | some h' => getattr h' 8 1 "foo" = .value 5 ∧ getattr h' 8 2 "foo" = .value 5
+        | none => False)
+     | none => False) := by
+  refine ⟨?_, ?_⟩
+  · show _ ∧ _
+    decide
+  · show _ ∧ _
+    decide
+
+/-- the name lists agree: everything `__getattr__` treats as local is also kept local by
+`__setattr__` (extracted from the source on every run) -/
+theorem bookkeeping_names_agree :
+    ∀ n ∈ Generated.symlinkGetattrLocal, Generated.symlinkSetattrLocal.contains n = true := by
+  decide
+
+/-- structural calls and attribute operations act on disjoint components of the state -/
+structure SState (V : Type) where
+  forest : Forest
+  heap : Heap V
+def structuralStep (c : Cfg) (fuel : Nat) (op : Op) (s : SState V) : SState V :=
+  { s with forest := (exec c fuel op s.forest).f }
+def attrStep (fuel i : Nat) (name : String) (v : V) (s : SState V) : SState V :=
+  { s with heap := (setattr s.heap fuel i name v).getD s.heap }
+theorem structure_independent (c : Cfg) (fuel : Nat) (op : Op) (i : Nat) (name : String) (v : V)
+    (s : SState V) :
+    (structuralStep c fuel op s).heap = s.heap ∧ (attrStep fuel i name v s).forest = s.forest ∧
+    structuralStep c fuel op (attrStep fuel i name v s) = attrStep fuel i name v (structuralStep c fuel op s) :=
+  ⟨rfl, rfl, rfl⟩
+
 end Anytree.Props.C20
